@@ -194,7 +194,7 @@ class NonCovalentlyCoupledGroups:
         if not conformation.non_covalently_coupled_groups:
             for group1 in titratable_groups:
                 for group2 in titratable_groups:
-                    if group1 == group2:
+                    if group1 is group2:
                         break
                     if (group1 not in group2.non_covalently_coupled_groups
                             and self.do_prot_stat):
